@@ -67,7 +67,8 @@ Inductive event :=
 | EPut (t : tid) (fail : bool)
 | EDel (t : tid) (fail : bool)
 | EComplete (t : tid)
-| EDone (t : tid).
+| EDone (t : tid)
+| EExtDrop.
 
 Definition upd {A} (f : nat -> A) (k : nat) (v : A) : nat -> A :=
   fun x => if Nat.eqb x k then v else f x.
@@ -215,6 +216,17 @@ Definition step (skipgc : bool) (s : state) (e : event) : option state :=
                      (reg s) (store s) (arg s) (lin s) (junk s) false)
       | _ => None
       end
+  | EExtDrop =>
+      (* index manifests are content-addressed: an index without a single (non-empty)
+         referrer - e.g. the empty index - can be the SAME manifest under several referrers
+         tags.  When the update of another tag deletes it, the registry drops this tag too *)
+      match reg s with
+      | Some x =>
+          if forallb is_empty x
+          then Some (set_reg s None (filter (fun y => negb (index_eqb y x)) (store s)) (junk s))
+          else None
+      | None => None
+      end
   | EDone t =>
       (* the release function of Pool.Get *)
       match pcs s t, pool s with
@@ -232,8 +244,22 @@ Fixpoint run (skipgc : bool) (s : state) (tr : list event) : option state :=
   | e :: tr' => match step skipgc s e with Some s' => run skipgc s' tr' | None => None end
   end.
 
+Definition is_cur (r : option index) (x : index) : bool :=
+  match r with Some c => index_eqb x c | None => false end.
+
+(* junk starts as the index manifests that are already dangling (not the current one) *)
 Definition init (reg0 : option index) (store0 : list index) : state :=
-  mkSt None false [] false [] (fun _ => Idle) reg0 store0 (fun _ => Add empty_desc) [] store0 false.
+  mkSt None false [] false [] (fun _ => Idle) reg0 store0 (fun _ => Add empty_desc) []
+       (filter (fun x => negb (is_cur reg0 x)) store0) false.
+
+Fixpoint dedup_idx (l : list index) : list index :=
+  match l with
+  | [] => []
+  | x :: t => if existsb (index_eqb x) t then dedup_idx t else x :: dedup_idx t
+  end.
+(* index manifests of this tag in the registry other than the current one *)
+Definition dangling (s : state) : nat :=
+  length (dedup_idx (filter (fun x => negb (is_cur (reg s) x)) (store s))).
 
 (* set view of an index: non-empty keys *)
 Definition memb (r : option index) (k : N) : bool := negb (k =? 0) && has_key k (idx r).
@@ -250,12 +276,45 @@ Definition holding (p : pc) : bool :=
 Definition quiescent (s : state) : Prop :=
   forall t, pcs s t = Idle \/ exists r, pcs s t = Done r.
 
+(* ---------- manifest layer ----------
+   A push PUTs the referrer manifest BEFORE it calls updateReferrersIndex, a delete
+   DELETEs it AFTER; these two exchanges decide which manifests are live. *)
+Inductive mevent := MPut (k : N) | MDel (k : N) | MIdx (e : event).
+Definition mstate := (state * list N)%type.   (* + keys of the live referrer manifests *)
+Definition is_live (k : N) (m : mstate) : bool := existsb (N.eqb k) (snd m).
+Definition mstep (sg : bool) (m : mstate) (e : mevent) : option mstate :=
+  match e with
+  | MPut k => Some (fst m, k :: snd m)
+  | MDel k => Some (fst m, filter (fun x => negb (x =? k)) (snd m))
+  | MIdx e' => match step sg (fst m) e' with Some s' => Some (s', snd m) | None => None end
+  end.
+Fixpoint mrun (sg : bool) (m : mstate) (tr : list mevent) : option mstate :=
+  match tr with
+  | [] => Some m
+  | e :: tr' => match mstep sg m e with Some m' => mrun sg m' tr' | None => None end
+  end.
+
+(* sequential histories: one operation at a time, each running to completion without a
+   failure: Push = manifest PUT, then the index update with [Add d]; Delete = the index
+   update with [Remove d], then the manifest DELETE *)
+Definition seq_op (st : option index * list N) (c : change) : option index * list N :=
+  let (r, live) := st in
+  let r' := match apply_changes (idx r) [c] with
+            | Updated l => Some l      (* new index pushed (an empty one is deleted: same set) *)
+            | NoUpdate => r
+            end in
+  match c with
+  | Add d => (r', dkey d :: live)
+  | Remove d => (r', filter (fun x => negb (x =? dkey d)) live)
+  end.
+
 (* ---------- replay of a visible schedule ----------
    What the harness sees between two quiescent points of the real code: a caller
    starts (VG), the main caller's index GET / PUT / DELETE is answered (VP / VU / VD,
    flag = failed).  The lock regions in between are inserted where the code performs
    them; [obs] logs the batch handed to update and the body of every PUT. *)
-Inductive vis := VG (t : tid) | VP (t : tid) (f : bool) | VU (t : tid) (f : bool) | VD (t : tid) (f : bool).
+Inductive vis := VG (t : tid) | VP (t : tid) (f : bool) | VU (t : tid) (f : bool) | VD (t : tid) (f : bool)
+             | VX.   (* the tag was dropped by another tag's deletion of a shared index *)
 Inductive obs := OBatch (main : tid) (ms : list tid) | OPut (main : tid) (new : index).
 
 (* complete / release for callers 0..n-1 (ascending), one pass *)
@@ -306,6 +365,7 @@ Definition vis_step (sg : bool) (changes : list change) (acc : state * list obs)
         let log1 := match pcs s t with NeedPut nw _ => log ++ [OPut t nw] | _ => log end in
         match step sg s (EPut t f) with Some s1 => Some (s1, log1) | None => None end
     | VD t f => match step sg s (EDel t f) with Some s1 => Some (s1, log) | None => None end
+    | VX => match step sg s EExtDrop with Some s1 => Some (s1, log) | None => None end
     end in
   match r with
   | Some (s1, log1) => match settle sg n (2 * n + 2) s1 with Some s2 => Some (s2, log1) | None => None end
@@ -326,11 +386,11 @@ Definition res_of (p : pc) : option result := match p with Done r => Some r | _ 
 
 (* results of the callers, final index (keys), logged observations *)
 Definition vis_summary (sg : bool) (r0 : option index) (changes : list change) (vs : list vis)
-  : option (list (option result) * option (list N) * list obs) :=
-  match run_vis sg changes (init r0 [], []) vs with
+  : option (list (option result) * option (list N) * list obs * nat) :=
+  match run_vis sg changes (init r0 (match r0 with Some x => [x] | None => [] end), []) vs with
   | Some (s, log) =>
       Some (map (fun t => res_of (pcs s t)) (seq 0 (length changes)),
-            match reg s with Some l => Some (map dkey l) | None => None end, log)
+            match reg s with Some l => Some (map dkey l) | None => None end, log, dangling s)
   | None => None
   end.
 
